@@ -1,0 +1,46 @@
+//go:build verif
+
+// Package verifpoint is a verification hook: named points at which the library has just made a
+// decision or a mutation. With the build tag `verif` a callback installed through
+// verifhook/vpoint observes (and may delay) them; without the tag every call is an empty inlined
+// function.
+package verifpoint
+
+import (
+	"sync/atomic"
+	"unsafe"
+)
+
+// Func receives a point name and up to three values.
+type Func func(name string, a, b, c int64)
+
+var fn atomic.Pointer[Func]
+
+// Set installs the callback (nil removes it).
+func Set(f Func) {
+	if f == nil {
+		fn.Store(nil)
+		return
+	}
+	fn.Store(&f)
+}
+
+// Point reports a point.
+func Point(name string, a, b, c int64) {
+	if f := fn.Load(); f != nil {
+		(*f)(name, a, b, c)
+	}
+}
+
+// Ptr returns the identity of a pointer-typed value.
+func Ptr(p any) int64 {
+	return int64((*[2]uintptr)(unsafe.Pointer(&p))[1])
+}
+
+// B converts a bool.
+func B(v bool) int64 {
+	if v {
+		return 1
+	}
+	return 0
+}
